@@ -34,6 +34,18 @@ package spynode
 //@ func (*Node).IsRelevant
 //@   trusted
 //@   opt modifies = none
+//@   ensures value: result == Relevant(tx)
+
+// The proof handed to handlers is the library's proof with the header of the processed block.
+//@ spec converted(r, mp, header) = r != nil && r.Index == uint64(mp.Index) && r.Path == mp.Path && r.BlockHeader == header
+//@     && len(r.DuplicatedIndexes) == len(mp.DuplicatedIndexes) && forall(k, 0, len(mp.DuplicatedIndexes), r.DuplicatedIndexes[k] == uint64(mp.DuplicatedIndexes[k]))
+
+//@ func convertMerkleProof
+//@   serves C04
+//@   requires mp != nil
+//@   loop 0 invariant 0 <= _i && _i <= len(mp.DuplicatedIndexes) && result != nil && fresh(result) && len(result.DuplicatedIndexes) == len(mp.DuplicatedIndexes) && fresharr(result.DuplicatedIndexes)
+//@   loop 0 invariant result.Index == uint64(mp.Index) && result.Path == mp.Path && result.BlockHeader == header && forall(k, 0, _i, result.DuplicatedIndexes[k] == uint64(mp.DuplicatedIndexes[k]))
+//@   ensures faithful: [C04] converted(result, mp, header) && fresh(result)
 
 //@ func containsHash
 //@   serves C06
@@ -62,8 +74,30 @@ package spynode
 //@   requires handlersstorage.InvU(node.txs) && !held(node.txs.unconfirmedLock) && !held(node.txs.blockLock)
 //@   requires handlersstorage.InvMem(node.blocks) && handlersstorage.InvFull(node.blocks) && handlersstorage.InvTop(node.blocks) && handlersstorage.InvNewest(node.blocks)
 //@   loop * invariant base(node)
-//@   loop 0 invariant base(node)
-//@   loop 4 invariant base(node)
+//@   loop 0 invariant base(node) && merkleTree != nil && len(txs) == len(txsIsNew) && len(txs) == len(txsIsSafe) && len(txs) == mtnreq(merkleTree) && mtnleaf(merkleTree) >= 0
+//@   loop 0 invariant forall(k, 0, len(txs), txs[k] != nil)
+//@   loop 0 invariant forall(k, 0, mtnreq(merkleTree), mtreq(merkleTree, k) == TxHashOf(txs[k]))
+//@   loop 0 invariant forall(k, 0, mtnreq(merkleTree), mtregleaf(merkleTree, k) < mtnleaf(merkleTree))
+//@   loop 4 invariant base(node) && 0 <= _i && _i <= len(txs) && len(txs) == len(txsIsNew) && len(txs) == len(txsIsSafe) && len(merkleProofs) == len(txs) && merkleRootHash == header.MerkleRoot
+//@   loop 4 invariant sinceloop(same(header)) && forall(k, 0, len(txs), txs[k] != nil && merkleProofs[k] != nil && ProofTx(merkleProofs[k]) == TxHashOf(txs[k]) && ProofRoot(merkleProofs[k]) == merkleRootHash)
+//@   loop 5 invariant base(node) && sinceloop(same(txState.State, txState.Tx))
+//@   loop 6 invariant base(node) && sinceloop(same(update.State, update.TxID))
 //@   assert grows_at_tip at call BlockRepository.Add : [C02] header.PrevBlock == BlockHashOf(handlersstorage.Hdr(node.blocks, node.blocks.height)) && !has(node.blocks.heights, BlockHashOf(header)) && header == BlockHeaderOf(block)
 //@   assert valid_before_add at call BlockRepository.Add : [C04] BlockValid(block)
+//@   assert leaf_is_requested_tx at call AddHash : [C04] mtnreq(merkleTree) > 0 && mtregleaf(merkleTree, mtnreq(merkleTree) - 1) == mtnleaf(merkleTree) ==> mtreq(merkleTree, mtnreq(merkleTree) - 1) == arg1
+//@   assert new_tx_carries_proof at call HandleTx loop 5 : [C04] arg2.Tx == txs[i] && arg2.State.UnconfirmedDepth == 0 && converted(arg2.State.MerkleProof, merkleProofs[i], header)
+//@        && ProofTx(merkleProofs[i]) == TxHashOf(txs[i]) && ProofRoot(merkleProofs[i]) == header.MerkleRoot
+//@   assert update_carries_proof at call HandleTxUpdate loop 6 : [C04] arg2.TxID == TxHashOf(txs[i]) && arg2.State.UnconfirmedDepth == 0 && converted(arg2.State.MerkleProof, merkleProofs[i], header)
+//@        && ProofTx(merkleProofs[i]) == TxHashOf(txs[i]) && ProofRoot(merkleProofs[i]) == header.MerkleRoot
+//@   assert announces_added_block at call HandleHeaders : [C02] arg2.StartHeight == uint32(node.blocks.height) && len(arg2.Headers) == 1 && arg2.Headers[0] != nil && *arg2.Headers[0] == header
+//@        && handlersstorage.Hdr(node.blocks, node.blocks.height) == header
+//@   assert proof_only_for_deliverable at call AddMerkleProof : [C03] arg1 == TxHashOf(tx) && (inUnconfirmed || (!inMemPool && Relevant(tx)))
+//@   assert skipped_are_irrelevant_or_seen at call TxRepository.Remove : [C03] !inUnconfirmed && !inMemPool && !Relevant(tx)
+//@   assert new_means_first_seen at call HandleTx loop 5 : [C03] txsIsNew[i]
+//@   assert update_means_delivered_before at call HandleTxUpdate loop 6 : [C03] !txsIsNew[i]
 //@   assert cancels_loser at call HandleTxUpdate loop 3 : [C06] arg2.TxID == confHash && arg2.State.UnSafe && arg2.State.Cancelled
+
+// fetchSpentOutputs fills tx.Outputs of the record it is handed and writes nothing else of the
+// program heap that existed before (assumed frame; its result is not specified here).
+//@ func fetchSpentOutputs
+//@   opt frame = freshonly except client.Tx!Outputs
